@@ -124,6 +124,22 @@ theorem C19_repaired_wfuse_accepted :
       | .ok _ => true | .error _ => false) = true := by
   decide +kernel
 
+/-- C19 (before repair 003f05d, binary64): `mul` of (1/4,1/4,1/2; a=0.999) and (1/2,1/8,3/8; a=0.998) — dyadic masses,
+    unremarkable base rates — is rejected by its own self-check: the divisor `1.0 - a` is taken from the rounded product
+    `a = ax*ay`, whose rounding error is amplified by `1/(1-a)`. The exact result is well-formed (`C12_mul_wf`). -/
+theorem C19_pinned_mul_rejected_near_one :
+    isErr (Pinned.mulCancel (⟨0.25, 0.25, 0.5, fb 0x3feff7ced916872b⟩ : BOp Float)
+        ⟨0.5, 0.125, 0.375, fb 0x3fefef9db22d0e56⟩) .bdu = true := by
+  decide +kernel
+
+/-- C19 (repaired model, binary64): the same operands are accepted, as are base rates 1-2e-13 and 1-5e-13. -/
+theorem C19_repaired_mul_accepted_near_one :
+    ((match BOp.mul (⟨0.25, 0.25, 0.5, fb 0x3feff7ced916872b⟩ : BOp Float) ⟨0.5, 0.125, 0.375, fb 0x3fefef9db22d0e56⟩ with
+      | .ok _ => true | .error _ => false) &&
+     (match BOp.mul (⟨0.25, 0.25, 0.5, fb 0x3feffffffffff8f7⟩ : BOp Float) ⟨0.5, 0.125, 0.375, fb 0x3fefffffffffee68⟩ with
+      | .ok _ => true | .error _ => false)) = true := by
+  decide +kernel
+
 /-! ### C11: the property's own example, binary64 -/
 
 def s3 (a b c u : Float) : Simplex Float 3 := ⟨#v[a / 16.0, b / 16.0, c / 16.0], u / 16.0⟩
